@@ -18,7 +18,7 @@ RULE = (
     "(-0.0, 1e308, 5e-324); distinct = hash of the configuration"
 )
 ASSUMPTIONS = ["no NaN/Infinity and no lone surrogates (not JSON-representable)", "attribute keys as in C10"]
-GATES = ["mon.C11.export", "mon.C11.write", "mon.C11.import", "mon.C11.read", "C11.maxlevel_forwarded", "C11.custom_dictexporter", "C11.importer_kwargs", "C11.non_ascii", "C11.realfile", "C11.exporter_reused", "C11.handle_not_at_start", "C11.subclassed_dictexporter", "C11.tree_used_before_export"]
+GATES = ["mon.C11.export", "mon.C11.write", "mon.C11.import", "mon.C11.read", "C11.maxlevel_forwarded", "C11.custom_dictexporter", "C11.importer_kwargs", "C11.non_ascii", "C11.realfile", "C11.exporter_reused", "C11.handle_not_at_start", "C11.subclassed_dictexporter", "C11.tree_used_before_export", "C11.export_failed_then_reused", "C11.export_failed_below_start"]
 
 
 def plan(tier, seed, jobs):
@@ -36,6 +36,13 @@ JSON_OPTS = [
     {"separators": (",", ":"), "ensure_ascii": True},
     {"sort_keys": True, "ensure_ascii": False, "separators": (", ", " : ")},
 ]
+
+
+def call_export(exporter, node):
+    try:
+        return exporter.export(node)
+    except Exception as e:  # noqa: B902
+        return "raised %r" % (e,)
 
 
 def check_one(ctx, lib, rng, par, attrs, kind, case):
@@ -172,6 +179,39 @@ def check_one(ctx, lib, rng, par, attrs, kind, case):
                         if r:
                             ctx.violation("C11/read/after-header", "read-equals-import", dict(cfg, imode=imode), expected=repr(want)[:500], observed=r[:500])
                             return False
+        # a supplied DictExporter whose user hook fails once somewhere below the start node; the same objects are used again
+        state = {"fail_at": rng.randrange(1, n) if n > 1 else None}
+
+        def flaky(attrs_iter):
+            items = list(attrs_iter)
+            if state["fail_at"] is not None and ("__marker__", state["fail_at"]) in items:
+                state["fail_at"] = None
+                raise RuntimeError("attriter failed once")
+            return [(k, v) for k, v in items if k != "__marker__"]
+
+        if n > 1 and kind in ("AnyNode", "Node"):
+            ctx.count("C11.export_failed_then_reused")
+            for i, nd in enumerate(nodes):
+                nd.__dict__["__marker__"] = i
+            de2 = DictExporter(attriter=flaky)
+            je2 = JsonExporter(dictexporter=de2, maxlevel=rng.choice([2, 3]), **jopts)
+            try:
+                je2.export(nodes[0])
+            except RuntimeError:
+                ctx.count("C11.export_failed_below_start")
+            state["fail_at"] = None  # (the first export may not have reached that node at all)
+            sx = rng.randrange(n)
+            want = json.dumps(c10.ref_export(recorded, ch, sx, je2.maxlevel, None, None, dict), **jopts)
+            gotx = call_export(je2, nodes[sx])
+            for nd in nodes:
+                del nd.__dict__["__marker__"]
+            try:
+                same = c10.deep_eq(c10._plain(json.loads(gotx)), c10._plain(json.loads(want)))
+            except (ValueError, TypeError):
+                same = False
+            if not same:
+                ctx.violation("C11/export/after-failed-export", "json-dumps-of-reference", dict(case, json_opts=repr(jopts), maxlevel=je2.maxlevel, start=sx), expected=want[:500], observed=str(gotx)[:500])
+                return False
         # one exporter object re-used while its public attributes are reassigned
         ctx.count("C11.exporter_reused")
         je = JsonExporter(**jopts)
